@@ -11,6 +11,7 @@ from sa.core import (
     attr_chain,
     enclosing,
     enclosing_function,
+    kwarg,
     norm,
     parents,
     resolve_callee,
